@@ -2,6 +2,7 @@ import Rtcm.Lemmas.Msm
 import Rtcm.Model.Message
 import Rtcm.Gen.Tables
 import Rtcm.Pinned.Sizes
+import Rtcm.Lemmas.Decodable
 /-
   C09 — MSM masks map to the right satellites, signals and cells.
 -/
@@ -110,5 +111,43 @@ example : (match satCellMaps T9 ⟨1077, none⟩ 1 (2 ^ 63 + 1) (2 ^ 30 + 2 ^ 27
         [([48, 48, 49], [49, 67]), ([48, 48, 49], [78, 47, 65]), ([78, 47, 65], [78, 47, 65])]))
     | .error _ => false) = true := by
   decide +kernel
+
+/-! ### message level: the three counts of every decoded MSM message -/
+
+/-- the static check of an MSM definition ends with the maps built (DF394, DF395, DF396 all decoded) -/
+def msmChecked (T : Tables) (e : Ident × List Item) : Bool :=
+  match ckItems T e.1 0 e.2 ⟨[], false, none⟩ with
+  | some env' => env'.maps
+  | none => false
+
+theorem C09_msm_defs_build_maps : ∀ e ∈ T9.msm, msmChecked T9 e = true := by decide +kernel
+
+theorem C09_hygiene : Hyg T9 := hyg_of_B T9 (by decide +kernel)
+
+/-- **For every MSM message that decodes** (all 49 definitions, every payload, either label option):
+    the attributes NSat, NSig and NCell equal the number of set bits in the decoded satellite mask
+    (64 bits), signal mask (32 bits) and cell mask (NSat × NSig bits). -/
+theorem C09_counts_are_popcounts (e : Ident × List Item) (he : e ∈ T9.msm) (p : Payload) (label : Nat) (s : DState)
+    (h : decItems ⟨T9, p, e.1, label⟩ e.2 [] DState.init = .ok s) :
+    ∃ a4 a5 a6 m4 m5 d : Nat,
+      T9.special.df394 = some a4 ∧ T9.special.df395 = some a5 ∧ T9.special.df396 = some a6
+      ∧ s.attrs.get? (a4, []) = some (.int m4) ∧ s.attrs.get? (a5, []) = some (.int m5)
+      ∧ s.attrs.get? (a6, []) = some (.int d)
+      ∧ s.attrs.get? (T9.fidNSat, []) = some (.int (popcount m4 64))
+      ∧ s.attrs.get? (T9.fidNSig, []) = some (.int (popcount m5 32))
+      ∧ s.attrs.get? (T9.fidNCell, []) = some (.int (popcount d (popcount m4 64 * popcount m5 32))) := by
+  have hc := C09_msm_defs_build_maps e he
+  unfold msmChecked at hc
+  cases hck : ckItems T9 e.1 0 e.2 ⟨[], false, none⟩ with
+  | none => rw [hck] at hc; simp at hc
+  | some env' =>
+    rw [hck] at hc
+    simp only at hc
+    have hinv := ck_final_inv T9 C09_hygiene e.1 label p e.2 env' hck s h
+    obtain ⟨a4, e4, _⟩ := C09_hygiene.s394
+    obtain ⟨a5, e5, _⟩ := C09_hygiene.s395
+    obtain ⟨a6, e6, _⟩ := C09_hygiene.s396
+    obtain ⟨m4, m5, d, g1, g2, g3, g4, g5, g6⟩ := hinv.m396 hc a4 a5 a6 e4 e5 e6
+    exact ⟨a4, a5, a6, m4, m5, d, e4, e5, e6, g1, g2, g3, g4, g5, g6⟩
 
 end Rtcm
